@@ -16,16 +16,19 @@ Section Loop.
     exists pre post, fmts = (pre ++ f :: post)%list /\ p f = Ok (Some s) /\ Forall (rejects p) pre.
   Proof.
     induction fmts as [| f0 rest IH]; intros msgs f s H; simpl in H; [discriminate |].
-    destruct (p f0) as [[s0 |] | k] eqn:E; try discriminate.
+    destruct (p f0) as [[s0 |] | k] eqn:E.
     - inversion H; subst. exists [], rest. repeat split; auto.
+    - destruct auto_none_continues eqn:Hn; [| discriminate].
+      destruct (IH _ _ _ H) as [pre [post [-> [Hp Hr]]]].
+      exists (f0 :: pre), post. repeat split; auto. constructor; [| assumption]. right. split; [exact Hn | exact E].
     - destruct (catches auto_collect_caught k) eqn:C1.
       + destruct (IH _ _ _ H) as [pre [post [-> [Hp Hr]]]].
         exists (f0 :: pre), post. repeat split; auto. constructor; [| assumption].
-        exists k; split; [assumption | rewrite C1; reflexivity].
+        left. exists k; split; [assumption | rewrite C1; reflexivity].
       + destruct (catches auto_skip_caught k) eqn:C2; [| discriminate].
         destruct (IH _ _ _ H) as [pre [post [-> [Hp Hr]]]].
         exists (f0 :: pre), post. repeat split; auto. constructor; [| assumption].
-        exists k; split; [assumption | rewrite C1, C2; reflexivity].
+        left. exists k; split; [assumption | rewrite C1, C2; reflexivity].
   Qed.
 
   (* completeness: if everything before f rejects and f's parser returns s, detection returns (f, s) *)
@@ -34,9 +37,10 @@ Section Loop.
   Proof.
     induction pre as [| g pre IH]; intros post msgs f s Hr Hp; simpl.
     - rewrite Hp; reflexivity.
-    - inversion Hr as [| ? ? [k [Hk Hc]] Hr']; subst. rewrite Hk.
-      destruct (catches auto_collect_caught k); [apply IH; assumption |].
-      simpl in Hc. rewrite Hc. apply IH; assumption.
+    - inversion Hr as [| ? ? [[k [Hk Hc]] | [Hn Hk]] Hr']; subst; rewrite Hk.
+      + destruct (catches auto_collect_caught k); [apply IH; assumption |].
+        simpl in Hc. rewrite Hc. apply IH; assumption.
+      + rewrite Hn. apply IH; assumption.
   Qed.
 
   (* when every parser rejects, the result is the format error listing, in order, the formats that complained *)
@@ -45,10 +49,11 @@ Section Loop.
   Proof.
     induction fmts as [| g rest IH]; intros msgs Hr; simpl.
     - rewrite app_nil_r; reflexivity.
-    - inversion Hr as [| ? ? [k [Hk Hc]] Hr']; subst. unfold complains at 1. rewrite Hk.
-      destruct (catches auto_collect_caught k) eqn:C1.
-      + rewrite IH by assumption. simpl. rewrite <- app_assoc. reflexivity.
-      + simpl in Hc. rewrite Hc. apply IH; assumption.
+    - inversion Hr as [| ? ? [[k [Hk Hc]] | [Hn Hk]] Hr']; subst; unfold complains at 1; rewrite Hk.
+      + destruct (catches auto_collect_caught k) eqn:C1.
+        * rewrite IH by assumption. simpl. rewrite <- app_assoc. reflexivity.
+        * simpl in Hc. rewrite Hc. apply IH; assumption.
+      + rewrite Hn. rewrite IH by assumption. simpl. rewrite <- app_assoc. reflexivity.
   Qed.
 
   (* with C13 as hypothesis - every parser is `documented` - no parser's internal exception escapes detection *)
@@ -61,6 +66,7 @@ Section Loop.
     induction fmts as [| g rest IH]; intros msgs Hd; simpl; [exact I |].
     assert (Hg := Hd g (or_introl eq_refl)).
     destruct (p g) as [[s |] | k]; try exact I.
+    { destruct auto_none_continues; [apply IH; intros; apply Hd; right; assumption | exact I]. }
     simpl in Hg.
     destruct (catches auto_collect_caught k) eqn:C1; [apply IH; intros; apply Hd; right; assumption |].
     destruct (catches auto_skip_caught k) eqn:C2; [apply IH; intros; apply Hd; right; assumption |].
